@@ -82,6 +82,8 @@ fn rev_ord(lang: &str) -> &'static BTreeMap<String, BTreeSet<String>> {
                     loop {
                         if let Some((w, marker)) = spell::ordinal(l, n, &mut e) {
                             m.entry(norm(l, &w.join(" "), false)).or_default().insert(format!("{}{}", n, marker));
+                            // the same tolerance as for cardinals: a spelling that differs only by the conjunction word
+                            m.entry(format!("\u{1}{}", norm(l, &w.join(" "), true))).or_default().insert(format!("{}{}", n, marker));
                         }
                         guard += 1;
                         if !e.advance() || guard > 3000 {
@@ -129,7 +131,7 @@ impl Property for C08 {
         "C08"
     }
     fn rule(&self) -> String {
-        "Pairs: (language, a in [1,99], b in [0,99], joiner in {space, conjunction word}, variant bytes for each side) spelled by the reference speller and joined; scanned at threshold 0 through the tokenizer pipeline. Oracle (reverse direction of the speller): every word except conjunction words lies in exactly one occurrence, in order; each occurrence's numeral c (after k leading zeros that must equal its leading zero words) must be a number whose set of standard spellings (all variants of c < 1000, hyphens split, French plural marks normalised) contains exactly the covered words - with conjunction words ignored on both sides when the covered words contain one (an extra conjunction never makes a reading illegitimate, a missing one does). So 'twenty twelve' -> 32 fails ('twenty twelve' is no spelling of 32) while 20 12, or 21 for 'twenty one', pass. Enumerated completely in every tier: all 99x100x2 (a,b,joiner) with canonical spellings; generated: random variants of both sides. Ordinal pairs: two ordinals below 100, each with its own inflection and stem variant; every occurrence must be a standard ordinal spelling (reverse table of all inflections of every rank < 200) of the text it is rewritten as, so components whose gender / number disagree are not fused. Dictation: digit strings d spoken digit by digit (en zeros zero|o, de eins); expected rewrite = d cut after every non-zero digit with trailing zeros as one last group, joined by single spaces; |d| <= 4 enumerated (11110 per language), |d| 5..8 generated. Non-trivial = distinct pairs where b is a unit or teen that could arithmetically be added to a (a multiple of ten >= 20 with b < 20, or any a with b < 10), and dictation strings containing a zero.".into()
+        "Pairs: (language, a in [1,99], b in [0,99], joiner in {space, conjunction word}, variant bytes for each side) spelled by the reference speller and joined; scanned at threshold 0 through the tokenizer pipeline. Oracle (reverse direction of the speller): every word except conjunction words lies in exactly one occurrence, in order; each occurrence's numeral c (after k leading zeros that must equal its leading zero words) must be a number whose set of standard spellings (all variants of c < 1000, hyphens split, French plural marks normalised) contains exactly the covered words - with conjunction words ignored on both sides when the covered words contain one (an extra conjunction never makes a reading illegitimate, a missing one does). So 'twenty twelve' -> 32 fails ('twenty twelve' is no spelling of 32) while 20 12, or 21 for 'twenty one', pass. Enumerated completely in every tier: all 99x100x2 (a,b,joiner) with canonical spellings; generated: random variants of both sides. Ordinal pairs: two ordinals below 100, each with its own inflection and stem variant; every occurrence must be a standard ordinal spelling (reverse table of all inflections of every rank < 200) of the text it is rewritten as, so components whose gender / number disagree are not fused. Cardinal + ordinal pairs (cardinal a < 100 followed by ordinal b < 100; all pairs enumerated in two inflection choices, random variants generated): same oracle, so 'twenty first' may be 21st but 'ten first' may not be 11st (the conjunction tolerance of the cardinal pairs applies; fr lone 'unième' read as 1ème is accepted). Dictation: digit strings d spoken digit by digit (en zeros zero|o, de eins); expected rewrite = d cut after every non-zero digit with trailing zeros as one last group, joined by single spaces; |d| <= 4 enumerated (11110 per language), |d| 5..8 generated. Non-trivial = distinct pairs where b is a unit or teen that could arithmetically be added to a (a multiple of ten >= 20 with b < 20, or any a with b < 10), and dictation strings containing a zero.".into()
     }
     fn assumptions(&self) -> Vec<String> {
         vec![
@@ -138,14 +140,16 @@ impl Property for C08 {
         ]
     }
     fn exhaustive_subdomains(&self, _tier: Tier) -> Vec<String> {
-        vec!["all (a,b,joiner) in [1,99]x[0,99]x{space,conjunction} with canonical spellings, 7 languages".into(), "every spelling variant of both sides for a in {10,20,..,90}, b < 20, both joiners, 7 languages".into(), "all dictated digit strings of length <= 4, canonical digit words, 7 languages".into()]
+        vec!["all (a,b,joiner) in [1,99]x[0,99]x{space,conjunction} with canonical spellings, 7 languages".into(), "every spelling variant of both sides for a in {10,20,..,90}, b < 20, both joiners, 7 languages".into(), "all dictated digit strings of length <= 4, canonical digit words, 7 languages".into(), "all (cardinal a, ordinal b) and (ordinal a, ordinal b) in [1,99]^2, two fixed inflection choices, 7 languages".into()]
     }
     fn strategy(&self, _tier: Tier) -> BoxedStrategy<Case> {
         let pair = (lang_strategy(), 1u64..100, 0u64..100, any::<bool>(), choices(), choices()).prop_map(|(lang, a, b, conj, ca, cb)| Case { lang, kind: "pair".into(), a, b, conj, ca, cb, d: String::new(), zsel: vec![] });
         let dict = (lang_strategy(), prop_oneof![1 => "[0-9]{1,4}", 3 => "[0-9]{5,8}", 2 => "[0-9]{0,3}0{1,3}[0-9]{0,3}0{0,2}", 1 => "0{4,8}[0-9]{0,2}", 1 => "[1-9]0{4,7}", 1 => "[0-9]{0,2}0{4,6}[0-9]{0,2}"], proptest::collection::vec(any::<u8>(), 0..8))
             .prop_map(|(lang, d, zsel)| Case { lang, kind: "dictation".into(), a: 0, b: 0, conj: false, ca: vec![], cb: vec![], d, zsel });
         let ordpair = (lang_strategy(), 1u64..100, 1u64..100, proptest::collection::vec(any::<u8>(), 1..6), proptest::collection::vec(any::<u8>(), 1..6)).prop_map(|(lang, a, b, ca, cb)| Case { lang, kind: "ordpair".into(), a, b, conj: false, ca, cb, d: String::new(), zsel: vec![] });
-        prop_oneof![6 => pair, 2 => dict, 1 => ordpair].boxed()
+        // a cardinal followed by an ordinal (`twenty first` is 21st, `ten first` is 10 and 1st)
+        let cardord = (lang_strategy(), 1u64..100, 1u64..100, proptest::collection::vec(any::<u8>(), 1..6), proptest::collection::vec(any::<u8>(), 1..6)).prop_map(|(lang, a, b, ca, cb)| Case { lang, kind: "cardord".into(), a, b, conj: false, ca, cb, d: String::new(), zsel: vec![] });
+        prop_oneof![12 => pair, 4 => dict, 2 => ordpair, 1 => cardord].boxed()
     }
     fn cases(&self, tier: Tier) -> u64 {
         tier.pick(3_000_000, 30_000_000)
@@ -157,6 +161,17 @@ impl Property for C08 {
             let b = (i / 14) % 100;
             let a = 1 + i / 1400;
             if !emit(Case { lang: lang.to_string(), kind: "pair".into(), a, b, conj, ca: vec![], cb: vec![], d: String::new(), zsel: vec![] }) {
+                return;
+            }
+        }
+        // every cardinal a < 100 followed by every ordinal b < 100, and every ordinal pair, in two fixed inflection choices
+        for i in shard_range(99 * 99 * 7 * 4, shard, nshards) {
+            let lang = LANGS[(i % 7) as usize];
+            let kind = if (i / 7) % 2 == 0 { "cardord" } else { "ordpair" };
+            let ch: Vec<u8> = if (i / 14) % 2 == 0 { vec![0] } else { vec![200, 200, 200] };
+            let b = 1 + (i / 28) % 99;
+            let a = 1 + i / (28 * 99);
+            if !emit(Case { lang: lang.to_string(), kind: kind.into(), a, b, conj: false, ca: ch.clone(), cb: ch, d: String::new(), zsel: vec![] }) {
                 return;
             }
         }
@@ -240,10 +255,11 @@ impl Property for C08 {
             obs.sample(|| json!({"lang": l, "dictated": text, "expect": want}));
             return Ok(());
         }
-        if c.kind == "ordpair" {
+        if c.kind == "ordpair" || c.kind == "cardord" {
             // two ordinals below 100 said one after the other, each with its own inflection: every occurrence
             // must be a standard ordinal spelling (some inflection, some stem variant) of what it is rewritten as
-            let (Some((wa, _)), Some((wb, _))) = (spell::ordinal(l, c.a.min(spell::ordinal_max(l)), &mut Bytes::new(&c.ca)), spell::ordinal(l, c.b.min(spell::ordinal_max(l)), &mut Bytes::new(&c.cb))) else {
+            let first = if c.kind == "cardord" { Some((spell::cardinal_nk(l, c.a, &mut Bytes::new(&c.ca)), String::new())) } else { spell::ordinal(l, c.a.min(spell::ordinal_max(l)), &mut Bytes::new(&c.ca)) };
+            let (Some((wa, _)), Some((wb, _))) = (first, spell::ordinal(l, c.b.min(spell::ordinal_max(l)), &mut Bytes::new(&c.cb))) else {
                 obs.exclude("shape-documented-as-not-an-ordinal");
                 return Ok(());
             };
@@ -265,7 +281,15 @@ impl Property for C08 {
                     covered[k] = true;
                 }
                 let phrase = norm(l, &w[k0..=k1].join(" "), false);
-                let ok = table.get(&phrase).map_or(false, |set| set.contains(&o.text)) || (!o.ord && rev(l).exact.get(&phrase).map_or(false, |set| set.contains(&(o.value() as u64))));
+                let has_c = w[k0..=k1].iter().any(|x| x == spell::conjunction(l));
+                let noconj_key = format!("\u{1}{}", norm(l, &w[k0..=k1].join(" "), true));
+                // fr: the compound-only form `unième(s)` read on its own is rank 1 (the vocabulary lists it as the ordinal of `un`)
+                let lone_unieme = l == "fr" && k0 == k1 && matches!((w[k0].as_str(), o.text.as_str()), ("unième", "1ème") | ("unièmes", "1èmes"));
+                let ok = table.get(&phrase).map_or(false, |set| set.contains(&o.text))
+                    || (has_c && table.get(&noconj_key).map_or(false, |set| set.contains(&o.text)))
+                    || lone_unieme
+                    || (!o.ord && rev(l).exact.get(&phrase).map_or(false, |set| set.contains(&(o.value() as u64))))
+                    || (!o.ord && has_c && rev(l).noconj.get(&norm(l, &w[k0..=k1].join(" "), true)).map_or(false, |set| set.contains(&(o.value() as u64))));
                 if !ok {
                     return Err(format!("[{}] {:?} (ordinals {} and {}): the words {:?} were rewritten as {:?} but they are not a spelling of it (inflections must agree)", l, text, c.a, c.b, w[k0..=k1].join(" "), o.text));
                 }
@@ -279,7 +303,7 @@ impl Property for C08 {
                 obs.exclude("ordinal-word-not-a-number-on-its-own");
                 return Ok(());
             }
-            obs.label(if occ.len() == 1 { "ordpair:one-number" } else { "ordpair:two-numbers" });
+            obs.label(&format!("{}:{}", c.kind, if occ.len() == 1 { "one-number" } else { "two-numbers" }));
             obs.nontrivial(&(l, &text));
             obs.sample(|| json!({"lang": l, "text": text, "occurrences": occ.iter().map(|o| o.text.clone()).collect::<Vec<_>>()}));
             return Ok(());
